@@ -56,6 +56,8 @@ def pool(tier):
   # three and four terms whose square / product has partial sums that cancel exactly on the way
   out += [[[0, "1/2"], [1, "1"], [2, "-1"]], [[0, "1"], [1, "2"], [2, "-2"]], [[-1, "1"], [0, "2"], [1, "-2"]],
           [[0, "1"], [1, "1"], [2, "-1/2"], [3, "1"]], [[0, "2"], [1, "-2"], [2, "1"], [3, "-1"]]]
+  # no constant and no linear term (lowest power >= 2): composition schemes that factor the lowest power out
+  out += [[[2, "1"], [3, "2"]], [[2, "-1"], [4, "1/2"]], [[3, "1"], [5, "-1"]], [[2, "2"], [3, "-1"], [5, "1"]]]
   return out
 
 
@@ -251,6 +253,14 @@ def run_single(case):
       v.viol["expected"] = {"n": e, "terms": v.viol["expected"]}
       return v
     acc = rr.pmul(acc, rp)
+  # powers given as integral floats (2.0 is the power 2), an explicit zero coefficient among them
+  fk = {float(k): c for k, c in rp.items()}
+  fk[7.0] = F(0)
+  fk[-3.0 if -3 not in rp else -4.0] = 0
+  qf = Poly(dict(fk))
+  if stored_zero(qf) or len(qf) != len(rp) or not (qf == p) or (qf != p) or hash(qf) != hash(mk(ps)) or terms(qf) != rp:
+    return bad("eq:float-powers", "integral float powers are the integer powers, and a zero coefficient given with "
+               "such a power is not stored", rp, dict(qf.terms()), n)
   # routes
   for route in ("expr", "list"):
     if route == "list" and (has_neg(ps)):
